@@ -42,9 +42,19 @@ MapClauses(s, o)  ==
                       /\ \A k \in 1..s.cnt : o.names[k] = MapNames(s.mode, s.base, s.cnt)[k],
     C19_unique_names |-> o.dup_rejected ]
 
+(* o.acc[k]: operation k returned normally (the driver stops after the first one that raised) *)
+DefSeqClauses(s, o) ==
+  LET ops == s.ops  fr == FirstRejected(ops)  n == IF fr <= Len(ops) THEN fr ELSE Len(ops) IN
+  [ C19_unique_names |-> /\ Len(o.acc) = n
+                         /\ \A k \in 1..n : o.acc[k] = (k < fr)
+                         /\ o.errkind \in {"", "WorkflowError"},
+    C19_map_names    |-> fr > Len(ops) =>
+                            /\ S(o.registered) = RegAfter(ops, Len(ops)) /\ Len(o.registered) = Cardinality(RegAfter(ops, Len(ops)))
+                            /\ \A k \in DOMAIN ops : o.results[k] = ops[k].names ]
+
 Clauses(s, o) == CASE s.kind = "graph" -> GraphClauses(s, o) [] s.kind = "wd" -> WdClauses(s, o)
                    [] s.kind = "name" -> NameClauses(s, o) [] s.kind = "path" -> PathClauses(s, o)
-                   [] s.kind = "map" -> MapClauses(s, o)
+                   [] s.kind = "map" -> MapClauses(s, o) [] s.kind = "defseq" -> DefSeqClauses(s, o)
 Failed(r) == LET c == Clauses(r.scn, r.obs) IN {n \in DOMAIN c : ~c[n]}
 Init == i \in 1..Len(Batch)
 Next == UNCHANGED i
